@@ -408,6 +408,9 @@ pub struct InstantCtx<'a> {
     /// the fault / crash site is inside the compress step: a (possibly torn)
     /// duplicate of the newest chunk at the base archive is tolerated
     pub compress_site: bool,
+    /// undecodable compressed archives are remnants of an earlier crash during
+    /// compression (the source was intact then): skip them wherever they are
+    pub tolerate_corrupt: bool,
     pub stream: &'a [RecId],
     pub when: &'a str,
 }
@@ -482,7 +485,7 @@ pub fn check_instant(c: &InstantCtx, sink: &Sink) -> bool {
         match p {
             Some(p) => files.push((k.clone(), frame::scan(p, 0))),
             None => {
-                if !(c.compress_site && *k == names.key(&names.arch(base))) {
+                if !(c.tolerate_corrupt || (c.compress_site && *k == names.key(&names.arch(base)))) {
                     sink.fail("C08", "C08-I3", "archive-corrupt", format!("{}: archive {} does not decompress; tree: {}", c.when, k, brief(c.tree)));
                     return false;
                 }
